@@ -9,7 +9,8 @@ VERIF = Path(__file__).resolve().parent.parent
 COMMON_NOTE = (
     "Trusted: Lean 4.33 kernel (axioms audited per theorem on every run: ⊆ propext, Classical.choice, "
     "Quot.sound; no sorry/native_decide/own axioms), the Lean compiler for the model driver, "
-    "harness/translate.py (tables regenerated from /repo each run) and the correspondence harness. "
+    "harness/translate.py (tables regenerated from /repo each run), harness/pytranslate.py (three functions "
+    "translated from their Python source each run) and the correspondence harness. "
 )
 
 def load_checks() -> dict[str, dict]:
@@ -49,6 +50,12 @@ def main():
         if c is None:
             na.append(dict(property_id=pid, reason=na_reasons.get(pid, NOT_YET)))
             continue
+        text = c["text"]
+        enc = sorted(f.stem for f in (VERIF / "lean" / "Props").glob(f"{pid}enc*.lean"))
+        if enc and "encoder model" not in text:
+            text += (f" The statements are also proved for what the whole-encoder model renders (Props/{', '.join(enc)}.lean; "
+                     "the model prints byte for byte what rtf_encode() returns, checked on generated documents by C01 on "
+                     "every run).")
         checks.append(dict(
             property_id=pid,
             quick_cmd=f"./check {pid} --tier quick",
@@ -56,7 +63,7 @@ def main():
             evidence_file=f"evidence/{pid}.json",
             replay_cmd_template=f"./check {pid} --replay {{path}}",
             engine="lean-model+correspondence",
-            level_claimed=dict(category="proof", text=c["text"], design_ref=f"DESIGN.md section {c['design']}"),
+            level_claimed=dict(category="proof", text=text, design_ref=f"DESIGN.md section {c['design']}"),
             level_note=COMMON_NOTE + c["note"],
             technique=c["technique"],
         ))
